@@ -337,6 +337,11 @@ class EngineBase:
             if len(a.items) != len(b.items):
                 return T(BOOL, "false")
             return T(BOOL, conj([self.eq(x, y).s for x, y in zip(a.items, b.items)]))
+        # tuple display against a value of a tuple sort: compare componentwise at that sort
+        if isinstance(a, TupV) and isinstance(b, T) and isinstance(b.sort, tuple) and b.sort[0] == "Tup" and len(b.sort) - 1 == len(a.items):
+            a = self.coerce(a, b.sort, "eq")
+        elif isinstance(b, TupV) and isinstance(a, T) and isinstance(a.sort, tuple) and a.sort[0] == "Tup" and len(a.sort) - 1 == len(b.items):
+            b = self.coerce(b, a.sort, "eq")
         if a.sort == NONE and b.sort == NONE:
             return T(BOOL, "true")
         for x, y in ((a, b), (b, a)):
